@@ -374,6 +374,9 @@ func c18RandOp(r *rand.Rand, in c18In, nShares int, boundary bool) c18Op {
 			return in.N
 		case 2:
 			return in.N + 200
+		case 3:
+			// out of range as an int, in range after narrowing to a byte
+			return []int{256, -256, 512, 65536}[r.IntN(4)] + r.IntN(in.N)
 		}
 		return r.IntN(in.N)
 	}
